@@ -55,45 +55,44 @@ class CharSet(object):
         return (cp in self.members) != self.negated
 
 
-def charset_of(op, av, flags):
-    ic = bool(flags & re.IGNORECASE)
+_ALLCPS = None
+_ATOM_CACHE = {}
 
-    def fold(s):
-        if not ic:
-            return s
-        out = set(s)
-        for c in s:
-            ch = chr(c)
-            for v in (ch.lower(), ch.upper()):
-                if len(v) == 1:
-                    out.add(ord(v))
-        return out
+
+def _engine_members(op, av, flags):
+    """The code points a single-character atom matches - asked of the real engine (one finditer pass over a string of all
+    0x110000 code points), so that case folding (`re.I`, with or without `re.A`), `\\d`, `\\s`, `\\w` and their ASCII variants
+    are whatever this interpreter's `re` makes of them, not this module's idea of it."""
+    global _ALLCPS
+    key = (str(op), repr(av), int(flags & (re.IGNORECASE | re.ASCII | re.DOTALL)))
+    if key not in _ATOM_CACHE:
+        if _ALLCPS is None:
+            _ALLCPS = ''.join(map(chr, range(MAXCP)))
+        try:
+            import re._compiler as sre_compile
+        except ImportError:
+            import sre_compile
+        sub = sre_parse.SubPattern(sre_parse.State())
+        sub.append((op, av))
+        pat = sre_compile.compile(sub, int(flags & (re.IGNORECASE | re.ASCII | re.DOTALL)) | (0 if flags & re.ASCII else re.UNICODE))
+        _ATOM_CACHE[key] = frozenset(ord(m.group()) for m in pat.finditer(_ALLCPS))
+    return _ATOM_CACHE[key]
+
+
+def charset_of(op, av, flags):
     if op is sre_c.LITERAL:
-        return CharSet(fold({av}))
+        return CharSet(_engine_members(op, av, flags))
     if op is sre_c.NOT_LITERAL:
-        return CharSet(fold({av}), True)
+        return CharSet(_engine_members(sre_c.LITERAL, av, flags), True)
     if op is sre_c.ANY:
         return CharSet({10}, True) if not (flags & re.DOTALL) else CharSet(set(), True)
     if op is sre_c.IN:
-        neg = False
-        mem = set()
-        for o, a in av:
-            if o is sre_c.NEGATE:
-                neg = True
-            elif o is sre_c.LITERAL:
-                mem.add(a)
-            elif o is sre_c.RANGE:
-                mem.update(range(a[0], a[1] + 1))
-            elif o is sre_c.CATEGORY:
-                if a is sre_c.CATEGORY_DIGIT:
-                    mem |= digits()
-                elif a is sre_c.CATEGORY_SPACE:
-                    mem |= spaces()
-                else:
-                    raise MachineryError('unsupported category %s' % a)
-            else:
+        items = [x for x in av if x[0] is not sre_c.NEGATE]
+        neg = len(items) != len(av)
+        for o, a in items:
+            if o not in (sre_c.LITERAL, sre_c.RANGE, sre_c.CATEGORY):
                 raise MachineryError('unsupported class item %s' % o)
-        return CharSet(fold(mem), neg)
+        return CharSet(_engine_members(sre_c.IN, items, flags), neg)
     raise MachineryError('not a character set op: %s' % op)
 
 
@@ -178,21 +177,28 @@ def build(pattern_text, flags, atoms, approx=None):
             atoms[key] = (len(atoms), cs)
         return atoms[key][0]
 
-    def seq(items, s):
+    SCOPED = re.IGNORECASE | re.ASCII | re.DOTALL | re.UNICODE
+
+    def seq(items, s, flags=flags):
         for op, av in items:
-            s = node(op, av, s)
+            s = node(op, av, s, flags)
         return s
 
-    def node(op, av, s):
+    def node(op, av, s, flags=flags):
         if op in (sre_c.LITERAL, sre_c.NOT_LITERAL, sre_c.ANY, sre_c.IN):
             t = nfa.new()
             nfa.sym.append((s, atom_index(charset_of(op, av, flags)), t))
             return t
         if op is sre_c.SUBPATTERN:
             group, add_flags, del_flags, sub = av
-            if add_flags or del_flags:
-                raise MachineryError('inline flags are not supported')
-            e = seq(sub, s)
+            if (add_flags | del_flags) & ~SCOPED:
+                raise MachineryError('scoped inline flags other than a, i, s, u are not supported')
+            if add_flags & re.ASCII:
+                flags = flags & ~re.UNICODE
+            if add_flags & re.UNICODE:
+                flags = flags & ~re.ASCII
+            flags = (flags | add_flags) & ~del_flags          # (?ai:...), (?-i:...): in force inside the group only
+            e = seq(sub, s, flags)
             if group in refs:              # a group some (?(n)..) tests: mark that it has taken part
                 t = nfa.new()
                 nfa.eps.append((e, t, ('S', group)))
@@ -203,17 +209,17 @@ def build(pattern_text, flags, atoms, approx=None):
             t = nfa.new()
             a = nfa.new()
             nfa.eps.append((s, a, ('G+', g)))
-            nfa.eps.append((seq(yes, a), t, ''))
+            nfa.eps.append((seq(yes, a, flags), t, ''))
             b = nfa.new()
             nfa.eps.append((s, b, ('G-', g)))
-            nfa.eps.append((seq(no if no is not None else [], b), t, ''))
+            nfa.eps.append((seq(no if no is not None else [], b, flags), t, ''))
             return t
         if op is sre_c.BRANCH:
             t = nfa.new()
             for alt in av[1]:
                 a = nfa.new()
                 nfa.eps.append((s, a, ''))
-                e = seq(alt, a)
+                e = seq(alt, a, flags)
                 nfa.eps.append((e, t, ''))
             return t
         if op is getattr(sre_c, 'POSSESSIVE_REPEAT', None):
@@ -243,19 +249,19 @@ def build(pattern_text, flags, atoms, approx=None):
                 nfa.eps.append((cur, out, ''))
                 return out
             approx.append('possessive repeat')
-            return node(sre_c.MAX_REPEAT, av, s)
+            return node(sre_c.MAX_REPEAT, av, s, flags)
         if op is getattr(sre_c, 'ATOMIC_GROUP', None):
             approx.append('atomic group')
-            return seq(av, s)
+            return seq(av, s, flags)
         if op in (sre_c.MAX_REPEAT, sre_c.MIN_REPEAT):
             lo, hi, sub = av
             cur = s
             for _ in range(lo):
-                cur = seq(sub, cur)
+                cur = seq(sub, cur, flags)
             if hi is sre_c.MAXREPEAT:
                 a = nfa.new()
                 nfa.eps.append((cur, a, ''))
-                e = seq(sub, a)
+                e = seq(sub, a, flags)
                 nfa.eps.append((e, a, ''))
                 return a
             if hi - lo > 64:
@@ -263,7 +269,7 @@ def build(pattern_text, flags, atoms, approx=None):
             t = nfa.new()
             nfa.eps.append((cur, t, ''))
             for _ in range(hi - lo):
-                cur = seq(sub, cur)
+                cur = seq(sub, cur, flags)
                 nfa.eps.append((cur, t, ''))
             return t
         if op is sre_c.AT:
